@@ -372,9 +372,28 @@ func propC17(c c17Case) hh.Verdict {
 	}
 	dest := newDest(typ, cs, false)
 	processPrelude() // recycled issues (with the texts of other tests) are what this execution builds its own issues from
-	res := model.Run(schema, env, cs.Exec, input, dest)
-	if res.Panic != nil {
-		return hh.Fail("panic: %v", res.Panic)
+	// the chain is read once; the schema it built is used many times: the second use follows the first one's issues
+	// being handed back through the Collect helpers, and must read the same
+	var res *model.Result
+	for use := 0; use < 2; use++ {
+		if use == 1 {
+			if res.NoIssues() {
+				break
+			}
+			if res.IsMap {
+				z.Issues.CollectMap(res.Map)
+			} else {
+				z.Issues.CollectList(res.List)
+			}
+			dest = newDest(typ, cs, false)
+		}
+		res = model.Run(schema, env, cs.Exec, input, dest)
+		if res.Panic != nil {
+			return hh.Fail("panic: %v", res.Panic)
+		}
+		if bad := c17Compare(res, markers, want, use); bad != "" {
+			return hh.Fail("%s", bad)
+		}
 	}
 	var got []detail
 	for _, is := range res.All() {
@@ -439,6 +458,30 @@ func propC17(c c17Case) hh.Verdict {
 	}
 	v.Nontrivial = notFollowed || mods >= 2 || (opted >= 1 && tests >= 2)
 	return v
+}
+
+// c17Compare: the issues of one use of the chain's schema against the chain's literal reading.
+func c17Compare(res *model.Result, markers map[string]bool, want []string, use int) string {
+	var got []detail
+	for _, is := range res.All() {
+		d := detail{path: is.Path, code: is.Code, dtype: is.Dtype, msg: "<default>", params: canonParams(is.Params)}
+		if markers[is.Message] {
+			d.msg = is.Message
+		} else {
+			cp := *is
+			cp.Message = ""
+			conf.DefaultIssueFormatter(&cp, nil)
+			if cp.Message != is.Message {
+				d.msg = "<foreign: " + is.Message + ">"
+			}
+		}
+		got = append(got, d)
+	}
+	gs := detailsSorted(got)
+	if strings.Join(gs, "\n") != strings.Join(want, "\n") {
+		return fmt.Sprintf("issues of the chain differ from its literal reading (use %d of the schema):\n got  %v\n want %v", use+1, gs, want)
+	}
+	return ""
 }
 
 func genC17(rt *rapid.T, mode string) c17Case {
